@@ -102,8 +102,8 @@ ColumnsArePermutation(A) ==
   /\ Range(A.names) = Range(A.expected)
   /\ \A x, y \in 1..Len(A.names) : A.names[x] = A.names[y] => x = y
 
-ClauseNames == <<"SameLoci", "ColumnIndependent", "AssembleStats", "AssembleMonotone", "PerSequenceValues",
-                 "PoolIsUnion", "StorageIndependent", "OrderPermutes">>
+ClauseNames == <<"SameLoci", "PoolIsUnion", "StorageIndependent", "ColumnIndependent", "AssembleStats", "AssembleMonotone",
+                 "PerSequenceValues", "OrderPermutes">>
 Holds(c, A, B) ==
   CASE c = "SameLoci" -> SameLoci(A, B)
     [] c = "ColumnIndependent" -> ColumnIndependent(A, B)
